@@ -115,33 +115,33 @@ func GenNestedAnnot(idx int, withService bool) *ir.Request {
 	pkg := "nest.v1"
 	P := "." + pkg + "."
 	f := &ir.File{Name: fmt.Sprintf("nest%d/types.proto", idx), Package: pkg, GoPackage: "example.com/gen/nest/v1;nestv1"}
-	leaf := &ir.Message{Name: "NLeaf", Fields: []*ir.Field{{Name: "street", Number: 1, Kind: "string"}, {Name: "zip", Number: 2, Kind: "int32"}}}
+	leaf := &ir.Message{Name: "LeafN", Fields: []*ir.Field{{Name: "street", Number: 1, Kind: "string"}, {Name: "zip", Number: 2, Kind: "int32"}}}
 	tr := true
-	report := &ir.Message{Name: "Report", Fields: []*ir.Field{
+	report := &ir.Message{Name: "ParentReport", Fields: []*ir.Field{
 		{Name: "title", Number: 1, Kind: "string"},
-		{Name: "bucket", Number: 2, Kind: "message", TypeName: P + "Report.Bucket"},
-		{Name: "maybe", Number: 3, Kind: "message", TypeName: P + "Report.Maybe"},
-		{Name: "stamp", Number: 4, Kind: "message", TypeName: P + "Report.Stamp"},
-		{Name: "blob", Number: 5, Kind: "message", TypeName: P + "Report.Blob"},
-		{Name: "holder", Number: 6, Kind: "message", TypeName: P + "Report.Holder"},
-		{Name: "flat", Number: 7, Kind: "message", TypeName: P + "Report.Flat"},
-		{Name: "event", Number: 8, Kind: "message", TypeName: P + "Report.Event"},
-		{Name: "state", Number: 9, Kind: "enum", TypeName: P + "Report.State"},
+		{Name: "bucket", Number: 2, Kind: "message", TypeName: P + "ParentReport.Int64Bucket"},
+		{Name: "maybe", Number: 3, Kind: "message", TypeName: P + "ParentReport.NullableMaybe"},
+		{Name: "stamp", Number: 4, Kind: "message", TypeName: P + "ParentReport.TsStamp"},
+		{Name: "blob", Number: 5, Kind: "message", TypeName: P + "ParentReport.BytesBlob"},
+		{Name: "holder", Number: 6, Kind: "message", TypeName: P + "ParentReport.EmptyHolder"},
+		{Name: "flat", Number: 7, Kind: "message", TypeName: P + "ParentReport.FlattenFlat"},
+		{Name: "event", Number: 8, Kind: "message", TypeName: P + "ParentReport.OneofEvent"},
+		{Name: "state", Number: 9, Kind: "enum", TypeName: P + "ParentReport.State"},
 	},
 		Enums: []*ir.Enum{{Name: "State", Values: []ir.EnumValue{{Name: "STATE_UNSPECIFIED", Number: 0}, {Name: "STATE_ON", Number: 1, Custom: sp("on-line")}, {Name: "STATE_OFF", Number: 2}}}},
 		Nested: []*ir.Message{
-			{Name: "Bucket", Fields: []*ir.Field{{Name: "count", Number: 1, Kind: "int64", Ann: ir.Ann{Int64Enc: "NUMBER"}}, {Name: "sizes", Number: 2, Kind: "uint64", Card: "repeated", Ann: ir.Ann{Int64Enc: "NUMBER"}}}},
-			{Name: "Maybe", Fields: []*ir.Field{{Name: "note", Number: 1, Kind: "string", Card: "optional", Ann: ir.Ann{Nullable: &tr}}}},
-			{Name: "Stamp", Fields: []*ir.Field{{Name: "at", Number: 1, Kind: "message", TypeName: tsType, Ann: ir.Ann{TsFormat: "UNIX_MILLIS"}}}},
-			{Name: "Blob", Fields: []*ir.Field{{Name: "raw", Number: 1, Kind: "bytes", Ann: ir.Ann{BytesEnc: "HEX"}}}},
-			{Name: "Holder", Fields: []*ir.Field{{Name: "meta", Number: 1, Kind: "message", TypeName: P + "NLeaf", Ann: ir.Ann{EmptyBehavior: "NULL"}}}},
-			{Name: "Flat", Fields: []*ir.Field{{Name: "name", Number: 1, Kind: "string"}, {Name: "home", Number: 2, Kind: "message", TypeName: P + "NLeaf", Ann: ir.Ann{Flatten: &tr, FlattenPrefix: sp("home_")}}}},
-			{Name: "Event", Oneofs: []*ir.Oneof{{Name: "content", HasConfig: true, Discriminator: sp("type"), Flatten: true}},
-				Fields: []*ir.Field{{Name: "id", Number: 1, Kind: "string"}, {Name: "leaf", Number: 2, Kind: "message", TypeName: P + "NLeaf", Oneof: "content"}}},
+			{Name: "Int64Bucket", Fields: []*ir.Field{{Name: "count", Number: 1, Kind: "int64", Ann: ir.Ann{Int64Enc: "NUMBER"}}, {Name: "sizes", Number: 2, Kind: "uint64", Card: "repeated", Ann: ir.Ann{Int64Enc: "NUMBER"}}}},
+			{Name: "NullableMaybe", Fields: []*ir.Field{{Name: "note", Number: 1, Kind: "string", Card: "optional", Ann: ir.Ann{Nullable: &tr}}}},
+			{Name: "TsStamp", Fields: []*ir.Field{{Name: "at", Number: 1, Kind: "message", TypeName: tsType, Ann: ir.Ann{TsFormat: "UNIX_MILLIS"}}}},
+			{Name: "BytesBlob", Fields: []*ir.Field{{Name: "raw", Number: 1, Kind: "bytes", Ann: ir.Ann{BytesEnc: "HEX"}}}},
+			{Name: "EmptyHolder", Fields: []*ir.Field{{Name: "meta", Number: 1, Kind: "message", TypeName: P + "LeafN", Ann: ir.Ann{EmptyBehavior: "NULL"}}}},
+			{Name: "FlattenFlat", Fields: []*ir.Field{{Name: "name", Number: 1, Kind: "string"}, {Name: "home", Number: 2, Kind: "message", TypeName: P + "LeafN", Ann: ir.Ann{Flatten: &tr, FlattenPrefix: sp("home_")}}}},
+			{Name: "OneofEvent", Oneofs: []*ir.Oneof{{Name: "content", HasConfig: true, Discriminator: sp("type"), Flatten: true}},
+				Fields: []*ir.Field{{Name: "id", Number: 1, Kind: "string"}, {Name: "leaf", Number: 2, Kind: "message", TypeName: P + "LeafN", Oneof: "content"}}},
 		}}
 	f.Messages = []*ir.Message{leaf, report}
 	if withService {
-		f.Services = []*ir.Service{{Name: "Nest", BasePath: "/nest", Methods: []*ir.Method{{Name: "Put", Input: P + "Report", Output: P + "Report", Config: &ir.HTTPConfig{Path: "/put", Method: "POST"}}}}}
+		f.Services = []*ir.Service{{Name: "Nest", BasePath: "/nest", Methods: []*ir.Method{{Name: "Put", Input: P + "ParentReport", Output: P + "ParentReport", Config: &ir.HTTPConfig{Path: "/put", Method: "POST"}}}}}
 	}
 	return &ir.Request{Files: []*ir.File{f}, Generate: []string{f.Name}}
 }
